@@ -31,6 +31,10 @@ class PathLimit(BaseException):
     pass
 
 
+class Cut(BaseException):
+    """Probe mode: the decision depth used for splitting the tree across processes was reached."""
+
+
 # ----------------------------------------------------------------------------------------------
 # contexts
 
@@ -55,6 +59,7 @@ class Ctx:
         self.model = None
         self.nontrivial = False
         self.notes = []
+        self.cut_depth = None
 
     # -- solver plumbing
     def check(self, *assumptions):
@@ -109,6 +114,8 @@ class Ctx:
             self.pos += 1
             self.solver.add(cond if d else z3.Not(cond))
             return d
+        if self.cut_depth is not None and len(self.prefix) >= self.cut_depth:
+            raise Cut()
         self.n_decisions += 1
         ncond = z3.Not(cond)
         can_t = can_f = None
@@ -399,6 +406,9 @@ class SReal:
         return SqrtReal(_real(self.e))
 
     def _cmp(self, o, f):
+        special = _cmp_nonfinite(o, getattr(f, "_name", None))
+        if special is not None:
+            return special
         oe = _lift(o)
         if oe is NotImplemented:
             return NotImplemented
@@ -451,6 +461,18 @@ class SReal:
 
     def __repr__(self):
         return f"{type(self).__name__}({z3.simplify(self.e)})"
+
+
+def _cmp_nonfinite(o, name):
+    """comparison of a (finite) symbolic real with inf / nan"""
+    if hasattr(o, "item") and getattr(o, "ndim", None) == 0:
+        o = o.item()
+    if not isinstance(o, float) or not (math.isinf(o) or math.isnan(o)):
+        return None
+    if math.isnan(o):
+        return name == "ne"
+    pos = o > 0
+    return {"lt": pos, "le": pos, "gt": not pos, "ge": not pos, "eq": False, "ne": True}[name]
 
 
 def _check_nonzero(den):
@@ -539,6 +561,9 @@ class SqrtReal(SReal):
 
     def _cmp(self, o, f):
         name = getattr(f, "_name", None)
+        special = _cmp_nonfinite(o, name)
+        if special is not None:
+            return special
         if isinstance(o, SqrtReal):
             return SBool(f(self.rad, o.rad))
         oe = _lift(o)
